@@ -105,7 +105,9 @@ def gen_config(r):
                          'ip': '10.1.%d.%d' % (r.randint(0, 255),
                                                r.randint(1, 254)),
                          'home_is_parent_of_cwd': r.chance(0.3),
-                         'ip_unresolvable': r.chance(0.1)},
+                         'ip_unresolvable': r.chance(0.1),
+                         'default_encoding': r.weighted([(9, None),
+                                                         (1, 'cp1252')])},
             'clock0': base.isoformat()}
 
 
@@ -671,6 +673,13 @@ def run_gentest(ctx, op):
     if sim.clock_during is not None:
         ctx.nontrivial = True
     outcome, exc = 'ok', None
+    denc = None
+    if ctx.sim.cfg['identity'].get('default_encoding'):
+        # a process whose preferred text encoding is not UTF-8
+        from sim.defaultenc import DefaultEncoding
+        denc = DefaultEncoding(ctx.sim.cfg['identity']['default_encoding'],
+                               ctx.stats['faults'])
+        denc.__enter__()
     try:
         if op.get('via_cli'):
             lf = op.get('long_flags')
@@ -697,8 +706,12 @@ def run_gentest(ctx, op):
         outcome, exc = 'exit', e
     except BaseException as e:
         if isinstance(e, KeyboardInterrupt):
+            if denc:
+                denc.__exit__(None, None, None)
             raise
         outcome, exc = 'error', e
+    if denc:
+        denc.__exit__(None, None, None)
     sim.clock_during = None
     sim.unstable = False
     sim.abort_at = None
